@@ -58,3 +58,11 @@ claim("C04",
       "attitude (all attitudes for the singularity-free class, general position for the closed-form class); the observed calls "
       "are abstracted and validated by TraceSensorWorld.",
       "TLA+ SensorWorld + TLC + exact replay and trace validation", "DESIGN.md section 5, C04")
+claim("C03",
+      "FilterLifecycle.tla carries the configuration catalogue transcribed from the constructors (19 classes x architecture x "
+      "frame x representation x mode x gain class x rate class = 231 configurations, enumerated by TLC) and the run machine with "
+      "OneRowPerSample / FaultFreeIsOk; the harness builds every configuration over seeded random histories (magnitudes over six "
+      "decades, acc/mag >= 1 degree apart) and over exact canonical poses (level at 12 headings, inverted, each axis vertical, two "
+      "measurement conventions) at several lengths and validates every row (count, real dtype, finite, unit / proper rotation / "
+      "finite angles); observed runs are validated by TraceLifecycle.",
+      "TLA+ FilterLifecycle catalogue + TLC + replay over enumerated configurations, trace validation", "DESIGN.md section 5, C03")
